@@ -113,6 +113,21 @@ Theorem c41_runtime_stop_only_known_signature : forall c evs final,
 Proof. exact smonitor_model_cod. Qed.
 Print Assumptions c41_runtime_stop_only_known_signature.
 
+(* the atomicity the theorems rest on is the code's: lifecycle check and admission under ONE
+   lock.  On the variant [sstep_split] (check and admission in separate critical sections —
+   the seeded change C41-a) a stop completes in between: the drain is done, yet a task is
+   admitted afterwards, stays in flight without terminal result, and the monitor is 1 *)
+Theorem c41_split_check_refuted :
+  let c := SCfg 1 false in
+  let evs := [SSubmit 0; STask 0 ROk; SStopCall 0; SStop 0 false; SStop 0 false; SDrainer; SStop 0 false; STask 0 ROk] in
+  let st := srun_split c evs in
+  s_done st = true /\ s_inflight st = 1 /\ s_tpc st 0%nat = TWork
+  /\ map hb_acc (s_subs st) = [true] /\ s_terms st = [] /\ map hp_ok (s_stops st) = [true]
+  /\ smonitor 1 false (shist_of st) = 1
+  /\ smonitor 1 false (shist_of (srun c evs)) = 0.
+Proof. exact split_check_refuted. Qed.
+Print Assumptions c41_split_check_refuted.
+
 (* non-vacuity: a stop with an expiring deadline, a second stop that joins the same drain,
    a submit after the stop is rejected, the admitted task completes normally *)
 Example c41_example_run :
